@@ -102,7 +102,7 @@ pub fn run(args: &Args) -> i32 {
         let trc: Vec<String> = tr.split(',').filter(|s| !s.is_empty()).map(|s| if s.starts_with("rct") { "rct".into() } else { s.to_string() }).collect();
         let wc = if w <= 70 { format!("w{}", w % 16) } else { format!("W{}", w % 16) };
         let hc = if h <= 70 { format!("h{}", h % 16) } else { format!("H{}", h % 16) };
-        let pool = if rng.chance(1, 3) { Pool::Rayon(3) } else { Pool::None };
+        let pool = if !cfg!(miri) && rng.chance(1, 3) { Pool::Rayon(3) } else { Pool::None };
         case.sig(format!("{kind}|{}|{wc}|{hc}|{:?}", trc.join("+"), pool), img.num_samples >= 4);
         case.obs_set("wh_mod16_cells", format!("{}x{}", w % 16, h % 16));
         case.sample(format!("{{\"image\":{},\"encoding\":{},\"pool\":\"{:?}\"}}", json_str(&img.desc), json_str(&img.enc_desc), pool));
